@@ -111,7 +111,7 @@ HC = r"""
 #define FORN(i) for (unsigned i = 0; i < NU; ++i)
 #define FORE(e) for (unsigned e = 0; e < NE; ++e)
 /* abstract multigraph read off the edge table: named inputs */
-_Bool in_np[NU]; _Bool in_ep[NE]; unsigned in_ea[NE], in_eb[NE]; _Bool in_directed; unsigned in_a, in_b;   /* in_a, in_b: the arguments of the operation */
+_Bool in_np[NU]; _Bool in_ep[NE]; unsigned in_ea[NE], in_eb[NE]; _Bool in_directed; unsigned in_hn, in_he; unsigned in_a, in_b;   /* in_a, in_b: the arguments of the operation */
 #define OUT(g, a) ((g)->nodeStructure_.e[a].second.first)
 #define INC(g, a) ((g)->nodeStructure_.e[a].second.second)
 #define HASN(g, a) ((g)->nodeStructure_.e[a].verif_present)
@@ -141,7 +141,7 @@ static void mk_graph(GlobalGraph *g) {
   g->directed_ = in_directed = nondet_bool();
 #endif
   g->root_ = 0;
-  g->highestNodeID_ = nondet_uint(); g->highestEdgeID_ = nondet_uint(); __CPROVER_assume(g->highestNodeID_ <= NU && g->highestEdgeID_ <= NE);
+  g->highestNodeID_ = nondet_uint(); g->highestEdgeID_ = nondet_uint(); __CPROVER_assume(g->highestNodeID_ <= NU && g->highestEdgeID_ <= NE); in_hn = g->highestNodeID_; in_he = g->highestEdgeID_;
   FORN(a) { in_np[a] = nondet_bool(); g->nodeStructure_.e[a].verif_present = in_np[a]; Row__ctor_0(&g->nodeStructure_.e[a].second);
     FORN(b) { OUT(g, a).e[b].verif_present = nondet_bool(); OUT(g, a).e[b].second = nondet_uint(); INC(g, a).e[b].verif_present = nondet_bool(); INC(g, a).e[b].second = nondet_uint(); } }
   FORE(x) { in_ep[x] = nondet_bool(); in_ea[x] = nondet_uint(); in_eb[x] = nondet_uint(); g->edgeStructure_.e[x].verif_present = in_ep[x]; g->edgeStructure_.e[x].second.first = in_ea[x]; g->edgeStructure_.e[x].second.second = in_eb[x]; }
